@@ -539,7 +539,10 @@ def simulate(scripts, child_main, child_teardown, cfg, sched_rng=None, fault_rng
                     if ps:
                         r1 = fault_rng.random()
                         dur = int(100 * (200 ** fault_rng.random()))      # 100 ms .. 20 s
-                        bias = 6.0 if p.last_kind in ("insert-session", "create-session", "insert-other") else 1.0
+                        bias = 6.0 if (p.last_kind or "").startswith(("insert-", "create-")) else 1.0
+                        if p.txn_open and p.pending[0] not in ("commit", "rollback", "close"):
+                            bias = 40.0       # about to do more work inside an open write transaction: the most telling place to stall
+                            dur = max(dur, 6000)
                         if fault is None and r1 < ps * bias:
                             fault = ["stall", dur]
                     pi = cfg.get("p_ioerr", 0.0)
